@@ -311,6 +311,147 @@ theorem scan_end (it : Iter) (dests : List Bool) (hf : it.failed = false) (hp : 
   unfold scan
   simp [hf, hp]
 
+/-! ## the Scanner (where every tuple column of width ≠ 1 is the last column) -/
+
+/-- every column but the last occupies exactly one destination: then the destination position
+    iterScanner.Scan indexes the cells with IS the column index -/
+def narrow : List TypeDesc → Bool
+  | [] => true
+  | [_] => true
+  | t :: r => destWidth t == 1 && narrow r
+
+theorem readCells_ok (tcs : List (TypeDesc × Cell)) (rest : FrameRead.Bytes) (hw : wfRow tcs = true) :
+    readCells tcs.length (eRow (tcs.map (·.2)) ++ rest) = .ok (tcs.map (fun tc => cellData tc.2), rest) := by
+  induction tcs with
+  | nil => simp [readCells, eRow]
+  | cons tc tcs ih =>
+    obtain ⟨t, c⟩ := tc
+    have hw' : ((wfCell t c = true ∧ wfType t = true) ∧ noCollClass t = true) ∧ wfRow tcs = true := by
+      simpa [wfRow] using hw
+    simp only [List.length_cons, readCells, List.map_cons, eRow, List.flatMap_cons, List.append_assoc]
+    rw [readColumn_eCell t c _ hw'.1.1.1]
+    have := ih hw'.2
+    simp only [eRow] at this
+    simp only [this]
+
+theorem scannerCols_ok (cols : List ColumnInfo) (tcs : List (TypeDesc × Cell)) (pre : List (Option FrameRead.Bytes))
+    (W : Nat) (acc : List Call) (hm : colsMatch cols (tcs.map (·.1))) (hw : wfRow tcs = true)
+    (hn : narrow (tcs.map (·.1)) = true) (hW : pre.length + totalWidth (tcs.map (·.1)) = W) :
+    scannerCols cols pre.length (List.replicate W true) (pre ++ tcs.map (fun tc => cellData tc.2)) acc
+      = .done [] (acc ++ rowCalls pre.length tcs) := by
+  induction tcs generalizing cols pre acc with
+  | nil =>
+    have : cols = [] := by simpa [colsMatch] using hm
+    subst this
+    simp [scannerCols, rowCalls]
+  | cons tc tcs ih =>
+    obtain ⟨t, c⟩ := tc
+    cases cols with
+    | nil => simp [colsMatch] at hm
+    | cons col cols =>
+      have hm' : col.typ = viewType t ∧ colsMatch cols (tcs.map (·.1)) := by
+        simpa [colsMatch] using hm
+      have hw' : ((wfCell t c = true ∧ wfType t = true) ∧ noCollClass t = true) ∧ wfRow tcs = true := by
+        simpa [wfRow] using hw
+      have hW' : pre.length + destWidth t + totalWidth (tcs.map (·.1)) = W := by
+        simp [totalWidth] at hW ⊢; omega
+      have hk : destWidth t ≤ W - pre.length := by omega
+      have hlen : ¬ pre.length ≥ (pre ++ List.map (fun tc => cellData tc.2) ((t, c) :: tcs)).length := by
+        simp
+      have hget : (pre ++ List.map (fun tc => cellData tc.2) ((t, c) :: tcs)).getD pre.length none = cellData c := by
+        simp [List.getD_eq_getElem?_getD]
+      have hdrop : (List.replicate W true).drop pre.length = List.replicate (W - pre.length) true := by simp
+      simp only [scannerCols]
+      rw [if_neg hlen, hget, hdrop,
+        scanColumn_ok col t c (W - pre.length) pre.length hm'.1 hw'.1.1.1 hw'.1.1.2 hw'.1.2 hk]
+      cases tcs with
+      | nil =>
+        have : cols = [] := by simpa [colsMatch] using hm'.2
+        subst this
+        simp [scannerCols, rowCalls]
+      | cons tc2 tcs2 =>
+        have hn' : destWidth t = 1 ∧ narrow (List.map (·.1) (tc2 :: tcs2)) = true := by
+          simpa [narrow] using hn
+        have := ih cols (pre ++ [cellData c]) (acc ++ cellCalls pre.length t c) hm'.2 hw'.2 hn'.2
+          (by simp only [List.length_append, List.length_singleton]; omega)
+        simp only [List.length_append, List.length_singleton, List.append_assoc, List.singleton_append] at this
+        simp only [hn'.1]
+        simp only [List.map_cons] at this ⊢
+        rw [this]
+        simp [rowCalls, hn'.1]
+
+/-- `n` rounds of `Next() == true; Scan(dests) == nil` -/
+def scannerRows (dests : List Bool) : Nat → Scanner → Option (List (List Call) × Scanner)
+  | 0, s => some ([], s)
+  | n + 1, s =>
+    match s.next with
+    | .ok (s1, true) =>
+      match s1.scan dests with
+      | .ok s2 calls =>
+        match scannerRows dests n s2 with
+        | some (cs, s3) => some (calls :: cs, s3)
+        | none => none
+      | _ => none
+    | _ => none
+
+theorem scanner_row (s : Scanner) (tcs : List (TypeDesc × Cell)) (rest : FrameRead.Bytes) (W : Nat)
+    (hf : s.it.failed = false) (hp : s.it.pos < s.it.numRows) (hc : s.cols.length = tcs.length)
+    (hm : colsMatch s.it.md.columns (tcs.map (·.1))) (hw : wfRow tcs = true) (hn : narrow (tcs.map (·.1)) = true)
+    (hW : totalWidth (tcs.map (·.1)) = W) (ha : s.it.md.actualColCount = (W : Int))
+    (hb : s.it.buf = eRow (tcs.map (·.2)) ++ rest) :
+    ∃ s1, s.next = .ok (s1, true) ∧
+      s1.scan (List.replicate W true) =
+        .ok { it := { s.it with pos := s.it.pos + 1, buf := rest }, cols := tcs.map (fun tc => cellData tc.2), valid := false }
+          (rowCalls 0 tcs) := by
+  refine ⟨{ it := { s.it with pos := s.it.pos + 1, buf := rest }, cols := tcs.map (fun tc => cellData tc.2), valid := true }, ?_, ?_⟩
+  · unfold Scanner.next
+    have h2 : ¬ s.it.pos ≥ s.it.numRows := by omega
+    simp only [hf, Bool.false_eq_true, if_false, h2, hc, hb]
+    rw [readCells_ok tcs rest hw]
+  · unfold Scanner.scan
+    have h3 : ¬ ((List.replicate W true).length : Int) ≠ s.it.md.actualColCount := by simp [ha]
+    simp only [Bool.not_true, Bool.false_eq_true, if_false, h3]
+    have := scannerCols_ok s.it.md.columns tcs [] W [] hm hw hn (by simpa using hW)
+    simp only [List.length_nil, List.nil_append] at this
+    rw [this]
+
+theorem scannerRows_ok (rows : List (List (TypeDesc × Cell))) (ts : List TypeDesc) (s : Scanner) (W : Nat) (rest : FrameRead.Bytes)
+    (hf : s.it.failed = false) (hn : s.it.pos + rows.length = s.it.numRows) (hc : s.cols.length = ts.length)
+    (hm : colsMatch s.it.md.columns ts) (hts : ∀ row ∈ rows, row.map (·.1) = ts)
+    (hw : ∀ row ∈ rows, wfRow row = true) (hnar : narrow ts = true)
+    (hW : totalWidth ts = W) (ha : s.it.md.actualColCount = (W : Int))
+    (hb : s.it.buf = eRows (rows.map (fun row => row.map (·.2))) ++ rest) :
+    ∃ s1, scannerRows (List.replicate W true) rows.length s = some (rows.map (rowCalls 0), s1) ∧
+      s1.it = { s.it with pos := s.it.numRows, buf := rest } := by
+  induction rows generalizing s with
+  | nil =>
+    refine ⟨s, by simp [scannerRows], ?_⟩
+    have : s.it.pos = s.it.numRows := by simpa using hn
+    have hb' : s.it.buf = rest := by simpa [eRows] using hb
+    obtain ⟨it, cols, valid⟩ := s
+    cases it
+    simp_all
+  | cons row rows ih =>
+    have hrow := hts row (by simp)
+    have hlen : row.length = ts.length := by rw [← hrow]; simp
+    have hb' : s.it.buf = eRow (row.map (·.2)) ++ (eRows (rows.map (fun row => row.map (·.2))) ++ rest) := by
+      simpa [eRows, eRow] using hb
+    have hp : s.it.pos < s.it.numRows := by simp at hn; omega
+    obtain ⟨s1, h1, h2⟩ := scanner_row s row _ W hf hp (by rw [hc, hlen]) (by rw [hrow]; exact hm) (hw row (by simp))
+      (by rw [hrow]; exact hnar) (by rw [hrow]; exact hW) ha hb'
+    obtain ⟨s2, h3, h4⟩ := ih
+      { it := { s.it with pos := s.it.pos + 1, buf := eRows (rows.map (fun row => row.map (·.2))) ++ rest },
+        cols := row.map (fun tc => cellData tc.2), valid := false }
+      hf (by simp at hn ⊢; omega) (by simp [hlen]) hm (fun r hr => hts r (by simp [hr])) (fun r hr => hw r (by simp [hr])) ha rfl
+    refine ⟨s2, ?_, by simpa using h4⟩
+    simp only [List.length_cons, scannerRows, h1, h2, h3, List.map_cons]
+
+/-- after the last row Next returns false and no error is recorded -/
+theorem scanner_end (s : Scanner) (hf : s.it.failed = false) (hp : s.it.pos = s.it.numRows) :
+    s.next = .ok (s, false) := by
+  unfold Scanner.next
+  simp [hf, hp]
+
 /-! ## from a logical RESULT/Rows response to the iterator -/
 
 theorem colsMatch_view (c : Cols) : colsMatch (viewCols c) (colTypes c) := by
